@@ -60,40 +60,41 @@ theorem exported_functions : exportedFunctions =
     ["AddCoin", "AddInt64", "Coin_Float64", "Coin_Int64", "Coin_ToZCN", "DistributeCoin", "Float64ToCoin",
      "Int64ToCoin", "Min", "MinusCoin", "MinusInt64", "MultCoin", "MultFloat64", "ParseZCN"] := by decide
 
-/-- unfold the generated definitions (exported ones by name, helpers and package variables by attribute) and the
-    specification -/
-macro "unfold_both" : tactic =>
-  `(tactic| (
-    simp only [AddCoin, MultCoin, MinusCoin, AddInt64, MinusInt64, DistributeCoin, Int64ToCoin, Coin_Int64,
-      Currency.Min, Res.andThen,
-      Verif.Spec.Currency.addCoin, Verif.Spec.Currency.multCoin, Verif.Spec.Currency.minusCoin,
-      Verif.Spec.Currency.addInt64, Verif.Spec.Currency.minusInt64, Verif.Spec.Currency.distributeCoin,
-      Verif.Spec.Currency.int64ToCoin, Verif.Spec.Currency.coinInt64, Verif.Spec.Currency.min, genErrs]
-    go_unfold_helpers
-    try simp only [AddCoin, MultCoin, MinusCoin, AddInt64, MinusInt64, DistributeCoin, Int64ToCoin, Coin_Int64,
-      Currency.Min, Res.andThen]))
+/-- unfold the named generated definitions (plus unexported helpers and package variables, through the generated
+    `go_unfold_helpers`) and the specification; push call continuations into conditionals -/
+syntax "unfold_both" "[" Lean.Parser.Tactic.simpLemma,* "]" : tactic
+macro_rules
+  | `(tactic| unfold_both [$ls,*]) =>
+    `(tactic| (
+      simp only [$ls,*, Res.andThen,
+        Verif.Spec.Currency.addCoin, Verif.Spec.Currency.multCoin, Verif.Spec.Currency.minusCoin,
+        Verif.Spec.Currency.addInt64, Verif.Spec.Currency.minusInt64, Verif.Spec.Currency.distributeCoin,
+        Verif.Spec.Currency.int64ToCoin, Verif.Spec.Currency.coinInt64, Verif.Spec.Currency.min, genErrs]
+      go_unfold_helpers
+      try simp only [$ls,*, Res.andThen]
+      try simp only [Res.elim_ite, Res.elim_ok, Res.elim_err, Res.elim_panic]))
 
 /-! ## bridges: integer helpers -/
 
 theorem addCoin_spec (a b : Coin) : AddCoin a b = Verif.Spec.Currency.addCoin genErrs a b := by
-  unfold_both; bridge_int
+  unfold_both [AddCoin]; bridge_int
 theorem multCoin_spec (a b : Coin) : MultCoin a b = Verif.Spec.Currency.multCoin genErrs a b := by
-  unfold_both; bridge_int
+  unfold_both [MultCoin]; bridge_int
 theorem minusCoin_spec (a b : Coin) : MinusCoin a b = Verif.Spec.Currency.minusCoin genErrs a b := by
-  unfold_both; bridge_int
+  unfold_both [MinusCoin]; bridge_int
 theorem int64ToCoin_spec (a : I64) : Int64ToCoin a = Verif.Spec.Currency.int64ToCoin genErrs a := by
-  unfold_both; bridge_int
+  unfold_both [Int64ToCoin]; bridge_int
 theorem coinInt64_spec (c : Coin) : Coin_Int64 c = Verif.Spec.Currency.coinInt64 genErrs c := by
-  unfold_both; bridge_int
+  unfold_both [Coin_Int64]; bridge_int
 theorem addInt64_spec (c : Coin) (a : I64) : AddInt64 c a = Verif.Spec.Currency.addInt64 genErrs c a := by
-  unfold_both; bridge_int
+  unfold_both [AddInt64, Int64ToCoin, AddCoin]; bridge_int
 theorem minusInt64_spec (c : Coin) (a : I64) : MinusInt64 c a = Verif.Spec.Currency.minusInt64 genErrs c a := by
-  unfold_both; bridge_int
+  unfold_both [MinusInt64, Int64ToCoin, MinusCoin]; bridge_int
 theorem distribute_spec (c : Coin) (a : I64) :
     DistributeCoin c a = Verif.Spec.Currency.distributeCoin genErrs c a := by
-  unfold_both; bridge_int
+  unfold_both [DistributeCoin, Int64ToCoin]; bridge_int
 theorem min_spec (a b : Coin) : Currency.Min a b = Verif.Spec.Currency.min a b := by
-  unfold_both; bridge_int
+  unfold_both [Currency.Min]; bridge_int
 
 /-! ## bridges: float helpers
 
